@@ -33,6 +33,9 @@ def main():
         r0 = subprocess.run(["timeout", "600", PY, demo], cwd=wt, env=env, capture_output=True, text=True)
         rec["ran"]["demo_unchanged"] = {"exit": r0.returncode, "tail": (r0.stdout + r0.stderr)[-300:]}
         ra = sh(f"git -C {wt} apply {os.path.join(src, 'patch.diff')}")
+        if ra.returncode != 0:
+            # the repository has moved on since the patch was written (later fix: commits)
+            ra = sh(f"git -C {wt} apply --3way {os.path.join(src, 'patch.diff')}")
         rec["ran"]["patch_applies"] = ra.returncode == 0
         if ra.returncode != 0:
             rec["ran"]["patch_error"] = ra.stderr[-500:]
